@@ -120,6 +120,12 @@ theorem decodeDepth_roundtrip (bits : Nat) (t : Bytes) (h : bits < 65536) :
     decodeDepth (encodeDepth bits ++ t) = .ok (bits, 2) :=
   decodeDepth_encode bits t h
 
+/-- The hypothesis is forced: `Key.MarshalBinary` writes `uint16(len(k))`, so a key of 65536 bytes
+or more is serialized with a truncated length (the model reproduces this and codecdrv checks it on
+keys of 65534..65538 bytes); such a leaf committed to a NodeDB can never be decoded again.  Since
+/repo cd851d6 the tree itself enforces the bound (`mkvs.Tree.Insert`/`RemoveExisting` return
+`ErrKeyTooLarge` above 8191 bytes, the largest key whose bit length fits `node.Depth`), which is
+probed on every run by the `writelog-keys` / `tree-write-keys` targets of codecxdrv. -/
 theorem decodeKey_roundtrip (k t : Bytes) (hk : k.length < 65536) :
     decodeKey (encodeKey k ++ t) = .ok (k, 2 + k.length) :=
   decodeKey_encode k t hk
